@@ -8,6 +8,7 @@ import (
 	"io/fs"
 	"os"
 	"sync"
+	"time"
 )
 
 type FileMode = os.FileMode
@@ -289,3 +290,45 @@ func (f *File) Readdir(n int) ([]fs.FileInfo, error) { return f.f.Readdir(n) }
 func (f *File) ReadDir(n int) ([]fs.DirEntry, error) { return f.f.ReadDir(n) }
 func (f *File) Readdirnames(n int) ([]string, error) { return f.f.Readdirnames(n) }
 func (f *File) Chmod(mode FileMode) error            { return f.f.Chmod(mode) }
+
+// ---- rarely used parts of package os: present so that an edited source tree that starts using them still builds
+// under the façade (a hard link shares the inode: crashfs maps both names to one file state)
+
+func Link(oldname, newname string) error {
+	err := os.Link(oldname, newname)
+	if err == nil {
+		rec(Op{Kind: "link", Path: oldname, To: newname})
+	}
+	return err
+}
+
+func Symlink(oldname, newname string) error { return os.Symlink(oldname, newname) }
+func Readlink(name string) (string, error)  { return os.Readlink(name) }
+
+func Truncate(name string, size int64) error {
+	err := os.Truncate(name, size)
+	if err == nil {
+		rec(Op{Kind: "truncate", Path: name, Off: size})
+	}
+	return err
+}
+
+func Chmod(name string, mode FileMode) error { return os.Chmod(name, mode) }
+func Chtimes(name string, atime, mtime time.Time) error {
+	return os.Chtimes(name, atime, mtime)
+}
+func SameFile(a, b FileInfo) bool       { return os.SameFile(a, b) }
+func Getwd() (string, error)            { return os.Getwd() }
+func Hostname() (string, error)         { return os.Hostname() }
+func LookupEnv(k string) (string, bool) { return os.LookupEnv(k) }
+func Environ() []string                 { return os.Environ() }
+func UserHomeDir() (string, error)      { return os.UserHomeDir() }
+func Executable() (string, error)       { return os.Executable() }
+func Exit(code int)                     { os.Exit(code) }
+func MkdirTemp(dir, pattern string) (string, error) {
+	d, err := os.MkdirTemp(dir, pattern)
+	if err == nil {
+		rec(Op{Kind: "mkdir", Path: d})
+	}
+	return d, err
+}
